@@ -507,11 +507,11 @@ def run(rep):
                 jobs.append((history_shard, (kind, "dense", (1, 1), T1, 1.0, sign, mode, None, sp, True)))
                 jobs.append((history_shard, (kind, "dense", (1, 1), T1 - 1, 1.0, sign, mode, ("delayed", 1), sp, True)))
         # index / transposition faults: 2x2 and friends, all histories of length T2 (hebbian + dep, cumulative)
-        for conn, nio in (("dense", (2, 2)), ("direct", (2, 2)), ("lateral", (2, 2)), ("conv", (1, 1)), ("conv2c", (1, 1)), ("dense", (2, 1)), ("dense", (1, 2))):
+        for conn, nio in (("dense", (2, 2)), ("direct", (2, 2)), ("lateral", (2, 2)), ("conv", (1, 1)), ("conv2c", (1, 1)), ("densemd", (2, 2)), ("dense", (2, 1)), ("dense", (1, 2))):
             for sign in ("hebbian", "anti"):
                 sp = "stepalt" if kind in ("mstdp", "mstdpet") else "pos"
                 jobs.append((history_shard, (kind, conn, nio, T2, 1.0, sign, "cumulative", None, sp)))
-                if conn in ("dense", "conv", "conv2c") and nio in ((2, 2), (1, 1)):
+                if conn in ("dense", "densemd", "conv", "conv2c") and nio in ((2, 2), (1, 1)):
                     jobs.append((history_shard, (kind, conn, nio, T2, 1.0, sign, "cumulative", ("delayed", 1), sp)))
                     jobs.append((history_shard, (kind, conn, nio, T2, 1.0, sign, "nearest", ("frozen", 1), sp)))
         for sign in SIGNS:
